@@ -21,10 +21,10 @@ struct Box[T] { v: T }
 enum E { A, B(int32) }
 enum Opt[T] { Non, Som(T) }
 trait Tr { fn tm(Self) -> int32; fn tk(Self, int32) -> int32; }
-impl S { fn get(self: S) -> int32 { self.x } fn add(self: S, k: int32) -> int32 { self.x + k } }
-impl[T] Box[T] { fn unbox(self: Box[T]) -> T { self.v } }
+impl S { fn get(self: S) -> int32 { self.x } fn add(self: S, k: int32) -> int32 { self.x + k } fn make(k: int32) -> S { S { x: k, y: \"m\" } } fn zero() -> int32 { 0 } }
+impl[T] Box[T] { fn unbox(self: Box[T]) -> T { self.v } fn wrap(v: T) -> Box[T] { Box { v: v } } }
 impl Box[int32] { fn only_int(self: Box[int32]) -> int32 { self.v } }
-impl E { fn code(self: E) -> int32 { 1 } }
+impl E { fn code(self: E) -> int32 { 1 } fn first() -> E { A } }
 impl Tr for S { fn tm(self: S) -> int32 { 1 } fn tk(self: S, k: int32) -> int32 { k } }
 impl Tr for int32 { fn tm(self: int32) -> int32 { 2 } fn tk(self: int32, k: int32) -> int32 { k } }
 fn mk() -> S { S { x: 1, y: \"a\" } }
